@@ -15,6 +15,7 @@ import (
 	_ "verif/h/checks/c11"
 	_ "verif/h/checks/c12"
 	_ "verif/h/checks/c12sim"
+	_ "verif/h/checks/c13"
 	_ "verif/h/checks/c14"
 	_ "verif/h/checks/c15"
 	_ "verif/h/checks/c16"
